@@ -145,9 +145,9 @@ func (o *StatsObserver) OnTxClose(file txfile.FileStats, tx txfile.TxStats) {
 	o.mu.Lock()
 	o.TxClose++
 	o.LastTx = tx
-	if !tx.Readonly && tx.Commit {
-		o.Last = file
-	}
+	// the file stats handed to every callback (commit, rollback, read-only close)
+	// must describe the file as it is
+	o.Last = file
 	o.mu.Unlock()
 }
 
@@ -200,6 +200,9 @@ func (c Config) Options(obs txfile.Observer) txfile.Options {
 	if c.SyncFull {
 		o.Sync = txfile.SyncFull
 	}
+	if c.SyncNone {
+		o.Sync = txfile.SyncNone
+	}
 	return o
 }
 
@@ -231,6 +234,13 @@ func NewRunner(p *Program, o RunOpts) (*Runner, *Violation) {
 }
 
 func (r *Runner) count(name string) { r.Counters[name]++ }
+
+// LastStats returns the FileStats most recently handed to the Observer.
+func (r *Runner) LastStats() txfile.FileStats {
+	r.Obsv.mu.Lock()
+	defer r.Obsv.mu.Unlock()
+	return r.Obsv.Last
+}
 
 func (r *Runner) record(o Obs) {
 	if r.O.Record {
